@@ -112,3 +112,31 @@ def spec_stats(spec, stats, prefix=""):
         stats.count("%s%s:%s" % (prefix, kind, mode))
     stats.count("%spair-table:%s" % (prefix, bool(spec["pair_coeffs"])))
     stats.count("%sextra-atom-columns:%s" % (prefix, bool(spec["extra_atom_labels"])))
+
+
+def inflate(spec, m):
+    """the same structure repeated m times (atoms shifted, terms copied with index offsets, unique charge tags): gives
+    structures with hundreds of atoms - indices beyond 127 / 255 - at the cost of a handful of draws"""
+    import copy
+    n = len(spec["pos"])
+    if n == 0 or m <= 1:
+        return spec
+    out = copy.deepcopy(spec)
+    shift = [0.173, 0.061, 0.097]
+    for r in range(1, m):
+        for i in range(n):
+            out["pos"].append([spec["pos"][i][k] + shift[k] * r for k in range(3)])
+            out["atom_types"].append(spec["atom_types"][i])
+            out["groups"].append(spec["groups"][i])
+            if spec["extra_atom_labels"]:
+                out["extra_atom_fields"].append(list(spec["extra_atom_fields"][i]))
+        for kind in M.KINDS:
+            for q, t in enumerate(spec[kind + "s"]):
+                out[kind + "s"].append([x + r * n for x in t])
+                out[kind + "_types"].append(spec[kind + "_types"][q])
+                if spec["extra_%s_labels" % kind]:
+                    out["extra_%s_fields" % kind].append(list(spec["extra_%s_fields" % kind][q]))
+    base = abs(spec["charges"][0]) - 0.001 if spec["charges"] else 0.0
+    N = n * m
+    out["charges"] = [round((base + 0.0001 * (i + 1)) * (-1 if i % 2 else 1), 6) for i in range(N)]
+    return out
